@@ -35,7 +35,7 @@ kf("C01", "C01-round-ties", "round() is emitted as GLSL.std.450 Round, whose tie
 kf("C01", "C01-abs-unsigned", "abs(u32) is emitted as SAbs, so abs(0xFFFFFFFFu) yields 1 instead of 0xFFFFFFFF (abs on unsigned is the identity)",
    ["C01|F1/call/abs/*u32*|*|mismatch"])
 kf("C01", "C01-switch-all-break-unreachable", "a switch whose every clause ends in break (e.g. `switch x { case 0: { break; } default: { break; } }`) branches to a merge block terminated by OpUnreachable, which is then executed",
-   ["C01|F2/*|*|trap:unreachable"])
+   ["C01|F2/*|*|trap:unreachable", "C01|F2L/*|*|trap:unreachable"])
 
 kf("C01", "C01-private-subobject-pointer-argument", "`f(&x[i])` with x a private array/matrix and f taking ptr<private, T>: the argument is spilled to a Function-class temporary (or an access chain of the wrong class is built), so OpFunctionCall/OpAccessChain pointer types disagree in storage class (invalid SPIR-V)",
    ["C01|F4idx/ptrarg-*/private/*|*|malformed-output:OpFunctionCall*", "C01|F4idx/ptrarg-*/private/*|*|malformed-output:OpAccessChain*"])
@@ -144,6 +144,8 @@ kf("C13", "C13-dce-after-inline", "dce applied to an inlined module removes or r
 # ---------------------------------------------------------------- C18 (DXIL container / bitcode)
 kf("C18", "C18-atomic-ordering-code", "atomicrmw/cmpxchg records carry ordering code 7 (the in-memory enum value) instead of the bitcode AtomicOrderingCodes value 6 for seq_cst",
    ["C18|func.enum|*ordering code # is not an AtomicOrderingCodes value*|*"])
+kf("C18", "C18-phi-after-grouped-switch-clause", "a function-local variable assigned in a switch that has a multi-selector clause (`case 1, 2:` or `case 0, default:`, lowered to a fall-through chain) and read after the switch: the phi at the merge block lists an incoming block that is not a predecessor of the merge block (invalid LLVM IR)",
+   ["C18|func.ssa|function @*: phi (instruction #, block #) has an incoming value from block #, which is not a predecessor|F2L"])
 kf("C18", "C18-signature-rows-over-32", "vertex shaders with more than 32 inputs (msl-vpt-formats-x*) get signature registers/rows >= 32 in ISG1 and PSV0; the D3D limit of 32 rows is not enforced",
    ["C18|sig.element|*|corpus/msl-vpt-formats-x*", "C18|psv.sig-elements|*|corpus/msl-vpt-formats-x*"])
 kf("C18", "C18-psv-barycentrics-count", "@builtin(barycentric): PSV0 declares more signature elements than it stores (part too short for the declared element table)",
